@@ -365,7 +365,7 @@ struct Gen {
 		plan_density = plans ? static_cast<int>(rng.below(4)) : 0;
 		small_targets = rng.chance(1, 2) ? 1 : 0;
 		bool do_serial = serial && rng.chance(1, 2);
-		bool do_copy = !prof.neutral && rng.chance(1, 3);
+		bool do_copy = rng.chance(1, 3);      // copies and moves are feature-neutral
 		bool do_crash = do_serial && rng.chance(1, 2);
 		bool do_replica = history && rng.chance(1, 3);
 		bool do_replay_self = history && !do_replica && rng.chance(1, 4);
